@@ -6,19 +6,14 @@ HERE = os.path.dirname(os.path.dirname(os.path.abspath(__file__)))
 ALL = ["C%02d" % i for i in range(1, 21)]
 
 # id -> (technique, level text, level note, design ref)
-CLAIMED = {
- "C05": ("property-based testing against a reference model (BTreeMap price->amount) in lock-step over generated event sequences + exhaustive small-scope enumeration",
-         "Generated-input search: thousands of generated snapshot/update sequences (unsorted levels, duplicate prices, zero amounts, several decimal representations) applied to OrderBook::update and to OrderBookL2Manager::run and compared after every event with an independent map model on every observable accessor; all sequences up to length 3 (quick) / 4 (thorough) over an 18-letter alphabet enumerated completely. Held-on-everything-explored, not a proof.",
-         "Trusted: proptest, rust_decimal comparison semantics, my map model. Well-formed snapshots only; duplicate prices inside one update accept any duplicate's outcome.",
-         "DESIGN.md section 3, C05"),
-}
+CLAIMED = json.load(open(os.path.join(HERE, "tools", "claimed.json")))
 PENDING_REASON = "check not built yet in this round; planned per DESIGN.md section 3 (will be claimed once its generated check exists and is silent on the unchanged tree)"
 
 def main():
     checks = []
     for pid in ALL:
         if pid not in CLAIMED: continue
-        tech, text, note, ref = CLAIMED[pid]
+        c = CLAIMED[pid]; tech, text, note, ref = c['technique'], c['text'], c['note'], c['ref']
         checks.append({
             "property_id": pid,
             "quick_cmd": f"./check {pid} quick",
